@@ -334,6 +334,9 @@ def search(ctx):
         N = int(rng.integers(60, 161))
         # detectors are rarely square: wide, tall and square ones in turn
         Nx, Ny = [(N, N), (N, int(N * rng.uniform(1.2, 1.6))), (int(N * rng.uniform(1.2, 1.6)), N)][i % 3]
+        if i == 1:
+            # one camera-sized frame per run (sides beyond 512 and beyond 1024 pixels in turn over the seeds)
+            Nx, Ny = [(1100, 140), (150, 1300), (600, 130), (2100, 128)][ctx.seed % 4] if ctx.tier == "quick" else [(1100, 140), (150, 1300), (600, 130), (2100, 128)][(i // 3) % 4]
         sp = 0.1
         cx, cy = float(rng.uniform(0.25 * Nx, 0.75 * Nx)), float(rng.uniform(0.25 * Ny, 0.75 * Ny))
         r, nidx, z = float(rng.uniform(0.4, 0.9)), float(rng.uniform(1.45, 1.65)), float(rng.uniform(8, 20))
